@@ -25,6 +25,49 @@ def run(fx, rep, tier):
     rule_stage(fx, rep, nxt)
     rule_loud(fx, rep, nxt)
     rule_loudset(fx, rep, nxt)
+    rule_segments(fx, rep, nxt)
+
+
+def rule_segments(fx, rep, nxt):
+    """The limit handed to the selection routine bounds one segment of the move list (captures / quiets). A limit that is a field
+    of the picker must be fixed once its segment has been generated: all its writes happen in one stage, before the stage that
+    uses it. A boundary that keeps moving in later stages (e.g. `first_quiet`, bumped whenever a killer is pulled forward) makes
+    the bad-captures stage run into moves that were already yielded (seed C10-4a)."""
+    order = {v["name"]: v["discr"] for v in fx.adt("move_picker::GenStage")["variants"]}
+
+    def stage_at(bb):
+        cur = None
+        for (e, pol, w) in guard_conditions(nxt, bb, expand_named=True):
+            g = stage_guard(nxt, e, pol)
+            if g:
+                cur = g
+        return cur
+    ok = True
+    n = 0
+    for bb, t in nxt.calls_to("MovePicker::next_best_move"):
+        lim = deep_strip(nxt.expr(t["args"][1], expand_named=True, at=bb))
+        if not (isinstance(lim, tuple) and lim[0] == "field" and deep_strip(lim[1]) == ("arg", 1, "self")):
+            continue  # e.g. self.moves.len(): the end of the list
+        fld = lim[2]
+        use_stage = stage_at(bb)
+        writes = set()
+        for wb, j, st in nxt.stmts():
+            if st["k"] == "assign" and st["lhs"]["l"] == 1 and [p.get("n") for p in st["lhs"].get("p", []) if isinstance(p, dict)] == [fld]:
+                writes.add(stage_at(wb))
+        for hb_bb, ht in nxt.calls():
+            hb = fx.body(callee_name(ht)) if callee_name(ht) else None
+            if hb is not None and hb is not nxt and "move_picker::MovePicker::" in norm(hb.name):
+                if any(adt == MP and f2 == fld for (wb, wi, adt, f2, kind, place) in hb.field_writes()):
+                    writes.add(stage_at(hb_bb))
+        n += 1
+        good = use_stage is not None and len(writes) == 1 and None not in writes and order[next(iter(writes))] < order[use_stage]
+        rep.obligation(good)
+        rep.sample({"rule": "C10-SEGMENTS", "stage": use_stage, "limit": fld, "written_in": sorted(str(w) for w in writes)})
+        if not good:
+            ok = False
+            rep.violation("C10-SEGMENTS", f"C10-SEGMENTS/{use_stage}/{fld}", f"MovePicker::next line {t.get('line')}: stage {use_stage} selects moves up to `self.{fld}`, which is written in stages {sorted(str(w) for w in writes)}: "
+                          "a segment boundary that still moves after its segment was generated lets the stage run into moves already yielded (or miss some)", {"fn": nxt.name, "file": nxt.file, "line": t.get("line")})
+    rep.rule("C10-SEGMENTS", n, 1, ok, "segment limits are fixed before the stage that uses them")
 
 
 def rule_loudset(fx, rep, nxt):
@@ -389,6 +432,8 @@ def rule_loud(fx, rep, nxt):
 
 M = "src/engine/search/move_picker.rs"
 MUTANTS = [
+    {"name": "bad-captures stage bounded by the moving quiet boundary (seed C10-4a)", "expect": "C10-SEGMENTS",
+     "edits": [(M, "            if let Some((mv, _)) = self.next_best_move(self.captures_end) {", "            if let Some((mv, _)) = self.next_best_move(self.first_quiet) {")]},
     {"name": "capture generator emits the knight instead of the queen promotion push (shape of seed C10-2)", "expect": "C10-LOUDSET",
      "edits": [("src/chess/movegen/gen.rs", "            moves.push(Move::quiet_promotion(\n                pawn,\n                target,\n                PromotionPieceKind::Queen,\n            ));", "            moves.push(Move::quiet_promotion(\n                pawn,\n                target,\n                PromotionPieceKind::Knight,\n            ));")]},
     {"name": "killer yielded without hash-move check", "expect": "C10-DEDUP/next",
